@@ -21,7 +21,7 @@ PROP = {
         "exceptions used as 'not from the gateway' are ValueError, RuntimeError, KeyError, a custom Exception and a custom BaseException; time-outs and OS-level connection errors are not used in that role because the statement does not say on which side they fall",
         "only the requests hook is driven; the aiohttp and tornado hooks use the same FailSafe/TrafficFilter objects but are not executed (libraries absent) - their share in the common FailSafe, one handle_on() registration each, is reproduced by the breaker unit (1-3 registrations in set_hooks() order, failures of any registered type)",
         "resolver = socket.gethostbyname replaced by a generated table; names that CPython's gethostbyname rejects while encoding its argument (IDNA) are passed to the real function, which fails before any lookup; no network access is possible (getaddrinfo & co. are guarded)",
-        "per-request override header x-lunar-allow and explicitly allow-listed private addresses (README example) are treated as operator decisions outside the statement: only 'never raises' is checked for them",
+        "per-request override header x-lunar-allow and explicitly allow-listed private addresses (README example) are treated as operator decisions outside the statement: only 'never raises' is checked for them; in the hook histories calls may carry the override (and a rule calls an excluded destination once with it and then without it): how the overridden call itself is routed is not judged, every call without the header is judged as ever - an override must not outlive its request",
         "completeness of the filter (public IPv4 destination, valid lists => forwarded) follows the package README, not the statement",
     ],
     "units": [
